@@ -42,7 +42,8 @@ def make_column(c: dict) -> Any:
     if kind == "text":
         dt = c.get("dtype", "object")
         if dt == "object":
-            return np.array([None if v is None else v for v in vals], dtype=object)
+            # an explicit Series: pandas >= 3 would otherwise infer its string dtype from a plain object array
+            return pd.Series([None if v is None else v for v in vals], dtype=object)
         if dt == "arrow_string":
             import pyarrow as pa
 
@@ -52,7 +53,7 @@ def make_column(c: dict) -> Any:
         dt = c.get("dtype", "bool")
         return pd.array(vals, dtype=dt) if dt == "boolean" else np.array(vals, dtype=bool)
     if kind == "mixed":
-        return np.array(vals, dtype=object)
+        return pd.Series(list(vals), dtype=object)
     raise ValueError(kind)
 
 
@@ -70,7 +71,11 @@ def make_frame(spec: dict) -> pd.DataFrame:
     cols = {name: make_column(c) for name, c in spec["cols"]}
     n = len(spec["cols"][0][1]["values"]) if spec["cols"] else spec.get("nrows", 0)
     index = make_index(spec.get("index"), n)
-    df = pd.DataFrame(cols, index=index if index is not None else pd.RangeIndex(n))
+    index = index if index is not None else pd.RangeIndex(n)
+    for v in cols.values():
+        if isinstance(v, pd.Series):
+            v.index = index  # (no re-alignment by label)
+    df = pd.DataFrame(cols, index=index)
     return df
 
 
